@@ -11,12 +11,13 @@ theorem callTail_proto_Er (csi : CsiMethod) (cx : Cx) (lo hi : Nat) (thisE' this
     (hp2 : strip p2 = .pname ca Span.dummy)
     (hm : Er cx lo hi member' memberSrc) (hmnl : member'.isLit = false)
     (ha : Forall2 (fun a' a => Er cx lo hi a' a ∧ DeepEr cx lo hi a' a) rest' rest)
-    (c0 : s.counter ≤ s0.counter) (ta0 : AllTA asg0) (inR : Inert idR)
-    (P0 : ∀ σ, cx.ext σ → ∃ X Δ0, eraseAsg σ asg0 = Δ0 ++ σ ∧ Sim X thisSrc ∧ WinU lo hi s.counter s0.counter Δ0 ∧
+    (c0 : s.counter ≤ s0.counter) (ta0 : AllTA asg0) (inR : Inert idR) (nbR : noBlk idR = true)
+    (P0 : ∀ asg0'', BRgL asg0 asg0'' → ∀ σ, cx.ext σ → ∃ X Δ0, eraseAsg σ asg0'' = Δ0 ++ σ ∧ Sim X thisSrc ∧
+        WinU lo hi s.counter s0.counter Δ0 ∧
         ∀ Δ2, Avoid s.counter s0.counter Δ2 → erase (Δ2 ++ (Δ0 ++ σ)) idR = (X, Δ2 ++ (Δ0 ++ σ)))
-    (hres : ∀ σ', cx.ext σ' → ∀ X, Sim X thisSrc → ∀ Xs,
-      resolveCall (erase σ' member').1 ca csp csp (.arg none X :: Xs) csp =
-        .call (.member (erase σ' member').1 (.pname ca csp) csp) (.arg none X :: Xs) csp) :
+    (hres : ∀ member'', BRg member' member'' → ∀ σ', cx.ext σ' → ∀ X, Sim X thisSrc → ∀ Xs,
+      resolveCall (erase σ' member'').1 ca csp csp (.arg none X :: Xs) csp =
+        .call (.member (erase σ' member'').1 (.pname ca csp) csp) (.arg none X :: Xs) csp) :
     let R := callTail csi thisE' method msp callee' rest' csp (some member') (some ca) idR asg0 s0
     s.counter ≤ R.2.counter ∧ ∀ e1 tag, R.1 = some (e1, tag) →
       Er cx lo R.2.counter e1 (.call (.member memberSrc p2 cs2) (.arg none thisSrc :: rest) csp) := by
@@ -38,25 +39,36 @@ theorem callTail_proto_Er (csi : CsiMethod) (cx : Cx) (lo hi : Nat) (thisE' this
       (asg0 ++ [.assign "=" (tempIdent s0.counter) (assignRight member' .expr) csp])
       ([] ++ [exprOrSpread (tempIdent s0.counter) .expr] ++ [.arg none idR]) s1 = RA at hL ⊢
     obtain ⟨⟨xs, asg3, args3⟩, s3⟩ := RA
-    obtain ⟨new, more, ea, eg, ta, inn, c3, A, B⟩ := hL
+    obtain ⟨new, more, ea, eg, ta, inn, nb, c3, A, B⟩ := hL
     dsimp only at ea eg c3 A B ⊢
     refine ⟨by omega, ?_⟩
     intro e1 tag he
     simp only [Option.some.injEq, Prod.mk.injEq] at he
     obtain ⟨rfl, -⟩ := he
     subst ea eg
-    intro σ hσ
-    obtain ⟨X, Δ0, e0, sX, w0, R0⟩ := P0 σ hσ
+    have hnbArgs : noBlkL ([] ++ [exprOrSpread (tempIdent s0.counter) .expr] ++ [.arg none idR] ++ more) = true := by
+      simp [noBlk_exprOrSpread .expr (noBlk_tempIdent _), noBlk_arg nbR, nb]
+    intro m hbr σ hσ
+    obtain ⟨first'', asg3'', rfl, hfirst, hasg⟩ := ddParen_BRg_inv hbr hnbArgs
+    simp only [insertThis] at hfirst
+    obtain ⟨c'', as'', rfl, hcc, has⟩ := hfirst.call_inv
+    obtain ⟨a0'', xs'', rfl, ha0, hxs⟩ := BRgL.cons_inv has
+    rw [BRg_noBlk (noBlk_member (noBlk_tempIdent _) (noBlk_pname _ _)) hcc, BRg_noBlk (noBlk_arg nbR) ha0]
+    obtain ⟨k12, new'', rfl, h12, hnew⟩ := BRgL.append_inv hasg
+    obtain ⟨asg0'', k2, rfl, h0, hk2⟩ := BRgL.append_inv h12
+    obtain ⟨am'', rfl, ham⟩ := BRgL.single_inv hk2
+    obtain ⟨member'', rfl, hmem''⟩ := tempAssign_BRg_inv ham
+    obtain ⟨X, Δ0, e0, sX, w0, R0⟩ := P0 asg0'' h0 σ hσ
     have hσ0 : cx.ext (Δ0 ++ σ) := Cx.ext_append hσ (w0.avoidCx hw)
-    obtain ⟨F, Δm, eF, sF, wF⟩ := hm _ hσ0
-    have hFe : F = (erase (Δ0 ++ σ) member').1 := by rw [eF]
+    obtain ⟨F, Δm, eF, sF, wF⟩ := hm member'' hmem'' _ hσ0
+    have hFe : F = (erase (Δ0 ++ σ) member'').1 := by rw [eF]
     -- after the this-argument and the function value are bound
-    have hmem : eraseAsg σ (asg0 ++ [.assign "=" (tempIdent s0.counter) (assignRight member' .expr) csp])
+    have hmem : eraseAsg σ (asg0'' ++ [.assign "=" (tempIdent s0.counter) (assignRight member'' .expr) csp])
         = (s0.counter, F) :: (Δm ++ (Δ0 ++ σ)) := by
       rw [eraseAsg_append, e0]
       simp only [eraseAsg]
       rw [erase_tempAssign]
-      obtain ⟨a, b⟩ := erase_assignRight (Δ0 ++ σ) (Δm ++ (Δ0 ++ σ)) member' F .expr eF sF.2.2
+      obtain ⟨a, b⟩ := erase_assignRight (Δ0 ++ σ) (Δm ++ (Δ0 ++ σ)) member'' F .expr eF sF.2.2
       rw [a, b]
     have hσ1 : cx.ext ((s0.counter, F) :: (Δm ++ (Δ0 ++ σ))) := by
       have : ((s0.counter, F) :: (Δm ++ (Δ0 ++ σ))) = ([(s0.counter, F)] ++ Δm) ++ (Δ0 ++ σ) := by simp
@@ -69,11 +81,11 @@ theorem callTail_proto_Er (csi : CsiMethod) (cx : Cx) (lo hi : Nat) (thisE' this
       have := hw.h2 _ hb
       dsimp only at this
       omega
-    obtain ⟨Δa, eA, wA⟩ := A _ hσ1
-    obtain ⟨Xs, Δ3, eXs, sXs, wXs⟩ := B _ [] hσ1 (Avoid.nil _ _) (AvoidP.nil _)
+    obtain ⟨Δa, eA, wA⟩ := A new'' hnew _ hσ1
+    obtain ⟨Xs, Δ3, eXs, sXs, wXs⟩ := B new'' xs'' hnew hxs _ [] hσ1 (Avoid.nil _ _) (AvoidP.nil _)
     simp only [List.nil_append] at eXs
-    have hall : AllTA (asg0 ++ [.assign "=" (tempIdent s0.counter) (assignRight member' .expr) csp] ++ new) := by
-      refine AllTA.append (AllTA.append ta0 ?_) ta
+    have hall : AllTA (asg0'' ++ [.assign "=" (tempIdent s0.counter) (assignRight member'' .expr) csp] ++ new'') := by
+      refine AllTA.append (AllTA.append (ta0.BRg h0) ?_) (ta.BRg hnew)
       intro a ha'
       simp only [List.mem_singleton] at ha'
       subst ha'
@@ -88,13 +100,12 @@ theorem callTail_proto_Er (csi : CsiMethod) (cx : Cx) (lo hi : Nat) (thisE' this
         simp only [List.mem_singleton] at ha'
         subst ha'
         exact inert_arg inR
-    have henv : eraseAsg σ (asg0 ++ [.assign "=" (tempIdent s0.counter) (assignRight member' .expr) csp] ++ new)
+    have henv : eraseAsg σ (asg0'' ++ [.assign "=" (tempIdent s0.counter) (assignRight member'' .expr) csp] ++ new'')
         = Δa ++ ((s0.counter, F) :: (Δm ++ (Δ0 ++ σ))) := by
       rw [eraseAsg_append, hmem, eA]
     refine ⟨.call (.member F (.pname ca csp) csp) (.arg none X :: Xs) csp,
       Δ3 ++ Δa ++ [(s0.counter, F)] ++ Δm ++ Δ0, ?_, ?_, ?_⟩
     · rw [erase_ddParen _ _ _ _ _ _ hinert hall, henv]
-      simp only [insertThis]
       have hget1 : Env.get (Δa ++ ((s0.counter, F) :: (Δm ++ (Δ0 ++ σ)))) s0.counter = some F := by
         rw [Env.get_append_of_notin _ _ _ (by
           intro p hp; have := wA p hp; have := hw.h3; omega), Env.get_cons_same]
@@ -110,7 +121,7 @@ theorem callTail_proto_Er (csi : CsiMethod) (cx : Cx) (lo hi : Nat) (thisE' this
         simp only [List.append_assoc, List.singleton_append] at this
         exact this
       rw [viaTemp_core _ Δ3 _ _ _ _ _ _ _ _ hget1 hthis (by rw [← eA]; exact eXs)]
-      rw [hFe, hres _ hσ0 X sX Xs]
+      rw [hFe, hres member'' hmem'' _ hσ0 X sX Xs]
       simp [List.append_assoc]
     · refine ⟨?_, Or.inl rfl, noSp_call _ _ _⟩
       simp only [strip, stripL, Option.map]
